@@ -1,5 +1,7 @@
 import Netpoll.ManagerLemmas
 import Netpoll.ManagerArith
+import Netpoll.ManagerVariant
+import Netpoll.ManagerExamples
 /-!
 # C18 – the poller pool always hands out a running poller of the configured size
 
@@ -23,12 +25,6 @@ theorem C18_running {n : Nat} (hn : 1 ≤ n) {s : S} (hr : Reachable n s) (hc : 
   obtain ⟨_, _, hsl, _⟩ := lock_not1 h.lock (by omega)
   have hm := h.rts id hid
   exact ⟨hm, (hsl.2.1 id hm).2.1, (hsl.2.1 id hm).2.2⟩
-
-/-- three pickers race the first (lazy) initialisation of a pool of two; two have returned, one still spins -/
-def exRace : List Act :=
-  [.spawn, .spawn, .spawn, .load, .load, .cas, .load, .cas, .run 0 false, .run 0 false, .run 0 false, .cas,
-   .run 0 false, .run 0 false, .run 0 false, .run 0 false, .run 0 false, .load, .cas2, .balEnter 0, .load,
-   .balEnter 0, .balSize 1, .balSize 0, .balIdx 1, .balIdx 0]
 
 example : ∃ s, Reachable 2 s ∧ Clean s ∧ s.rets = [1, 0] ∧ s.cCas = 1 :=
   ⟨traceEnd 2 exRace, reachable_traceEnd 2 exRace (by decide), by decide, by decide, by decide⟩
@@ -85,12 +81,6 @@ theorem C18_size {n : Nat} (hn : 1 ≤ n) {s : S} (hr : Reachable n s) (hc : Cle
     exact (hiff x).symm
   exact ⟨hlen, hnd, hiff, hlc, hcov, by omega, by omega, hsy⟩
 
-/-- grow to three, one Pick; `SetNumLoops(1)`; two pickers race the shrink, which closes pollers 1 and 2 -/
-def exShrink : List Act :=
-  [.spawn, .load, .cas] ++ List.replicate 10 (.run 0 false) ++ [.cas2, .balEnter 0, .balSize 0, .balIdx 0,
-    .setNumLoops 1, .spawn, .spawn, .load, .cas, .load, .run 0 false, .cas, .run 0 false, .run 0 false,
-    .run 0 false, .run 0 false, .run 0 false, .cas2]
-
 example : ∃ s, Reachable 3 s ∧ Clean s ∧ s.status = 2 ∧ s.polls = [0] ∧ s.closed = [1, 2] ∧ s.numLoops = 1 :=
   ⟨traceEnd 3 exShrink, reachable_traceEnd 3 exShrink (by decide), by decide, by decide, by decide, by decide, by decide⟩
 
@@ -101,11 +91,6 @@ theorem C18_size_oracle {n : Nat} (hn : 1 ≤ n) {s : S} (hr : Reachable n s) (h
   simp only [Obs.sized, S.obs, hb, Bool.and_eq_true, beq_iff_eq, decide_eq_true_eq, List.all_eq_true,
     Bool.not_eq_true', List.contains_eq_mem, decide_eq_false_iff_not]
   exact ⟨⟨⟨⟨⟨hlen, hnd⟩, fun id hid => ((hiff id).mp hid).2⟩, hlive⟩, hlc⟩, hbp, hbs⟩
-
-/-- a step of a goroutine inside `Pick` that is not an iteration of the wait loop (`load` / failed `cas`
-while somebody else holds the initialisation lock) -/
-def Productive (s : S) (a : Act) : Prop :=
-  a.isEnv = false ∧ ¬ (s.status = 1 ∧ (a = .load ∨ a = .cas))
 
 /-- **No picker is stuck.**  If no productive step is enabled, every `Pick` has returned: whenever
 pickers wait (status = initializing) the goroutine that holds the lock still has a step to take, so
@@ -173,10 +158,23 @@ theorem C18_quiescent {n : Nat} (hn : 1 ≤ n) {s : S} (hr : Reachable n s) (hc 
       simp only [step]; rw [if_neg (by omega)]; split <;> simp
   simp [S.inflight, hld, hcs, hrun, hc2, hcb, htk, hix]
 
-def exWait : List Act := [.spawn, .spawn, .load, .load, .cas, .cas, .load]
-
 example : ∃ s, Reachable 2 s ∧ Clean s ∧ s.inflight = 2 ∧ s.status = 1 ∧ step s (.run 0 false) ≠ none :=
   ⟨traceEnd 2 exWait, reachable_traceEnd 2 exWait (by decide), by decide, by decide, by decide, by decide⟩
+
+/-- **…and every Pick returns under a fair scheduler.**  Each productive step strictly decreases a
+natural-number measure of the state, so between two environment actions only finitely many productive
+steps exist; by `C18_quiescent` they run out only when every `Pick` has returned.  (Iterations of the
+wait loop are not bounded by the model: the waiting pickers rely on the lock holder being scheduled –
+A-sched-fair.) -/
+theorem C18_variant {n : Nat} (hn : 1 ≤ n) {s s' : S} (hr : Reachable n s) (a : Act) (hs : step s a = some s')
+    (hc : Clean s') (hp : Productive s a) : measure s' < measure s :=
+  measure_decreases s s' a (core_reachable hn hr (clean_of_step s s' a hs hc)) hs hc hp.1 hp.2
+
+example : ∃ s s', Reachable 2 s ∧ step s (.run 0 false) = some s' ∧ Clean s' ∧ Productive s (.run 0 false) ∧
+    measure s' < measure s :=
+  ⟨traceEnd 2 exWait, (step (traceEnd 2 exWait) (.run 0 false)).getD (init 2),
+    reachable_traceEnd 2 exWait (by decide), by decide, by decide, ⟨rfl, by decide⟩, by decide⟩
+
 
 /-- **Round-robin is even.**  For every start counter `acc`, every pool size `n > 0` and every number
 `k` of consecutive picks that stays below the sign bit (`acc + k < 2^63`, A-no-wrap): no pick panics,
@@ -202,13 +200,14 @@ example : rrPicks 7 3 3 8 = [some 2, some 0, some 1, some 2, some 0, some 1, som
 
 /-- past the sign bit the conversion `int(uintptr)` is negative and Go's `%` keeps the sign: the slot
 index is negative and `b.polls[idx]` panics.  Two consecutive tickets at 2^63 cannot both be multiples
-of `n ≥ 2`, so for EVERY `n ≥ 2` one of them panics – also for `n = 2`, which divides 2^64. -/
-theorem C18_round_robin_sign_witness :
-    (rrPick two63 2 2).2 = none ∧ (rrPick (two63 - 1) 3 3).2 = none ∧ (rrPick (two64 - 2) 3 3).2 = none ∧
-    (rrPicks (two63 - 3) 3 3 5) = [some 0, some 1, none, none, some 0] := by decide
+of `n ≥ 2`, so for EVERY `n ≥ 2` one of them panics – also for `n = 2`, which divides 2^64: divisibility
+of 2^64 by `n` does not matter, the sign does.  (`n = 1` never panics: `x % 1 = 0`.) -/
+theorem C18_round_robin_sign_witness (n : Nat) (hn : 2 ≤ n) :
+    (rrPick (two63 - 1) n n).2 = none ∨ (rrPick two63 n n).2 = none :=
+  rrPick_sign n hn
 
-def exOpenFail : List Act :=
-  [.spawn, .load, .cas, .run 0 false, .run 0 false, .run 0 false, .run 0 true, .run 0 false, .cas2, .balEnter 0]
+example : (rrPick two63 2 2).2 = none ∧ (rrPick (two63 - 1) 3 3).2 = none ∧ (rrPick (two64 - 2) 3 3).2 = none ∧
+    (rrPicks (two63 - 3) 3 3 5) = [some 0, some 1, none, none, some 0] := by decide
 
 /-- `openPoll` failing during a grow (e.g. EMFILE) is not handled: `Run`'s error path closes the OLD
 pollers, drops the ones just opened (one is left running outside any slice here) and sets the balancer to
@@ -218,8 +217,6 @@ theorem C18_openfail_witness :
       s.opened - s.closed.length = 1 :=
   ⟨traceEnd 2 exOpenFail, reachable_traceEnd 2 exOpenFail (by decide),
     by decide, by decide, by decide, by decide, by decide, by decide⟩
-
-def exZero : List Act := [.spawn, .load, .cas, .run 0 false, .cas2, .balEnter 0, .balSize 0]
 
 /-- `newManager(0)` (not reachable through the public API: the package creates its manager with
 `GOMAXPROCS/20+1 ≥ 1` and `SetNumLoops` rejects values below 1) leaves `numLoops = 0`; the first `Pick`
